@@ -89,6 +89,17 @@ def run(case: dict, lean: Lean) -> Outcome:
             failed.append(f"{attr}: select(ids).arrow() differs")
             if isinstance(s, dict) and s["error"] == "AssertionError" and all(want[i] is None for i in selnums): keys.append(NOVEC)
         if list(_outcome(lambda: list(es.select(ids=sel).attribute(attr).ids()))) != sel: failed.append(f"{attr}: select(ids).ids() differs")
+        # drop_null keeps exactly the entities that have a value — on the whole set and on a selection
+        for label, base, idx in (("all", es, list(range(n))), ("selection", es.select(ids=sel), selnums)):
+            d = _outcome(lambda: base.attribute(attr).drop_null())
+            if isinstance(d, dict): failed.append(f"{attr}: drop_null() on {label} raises {d['error']}"); continue
+            keep = [i for i in idx if want[i] is not None]
+            got_ids = _outcome(lambda: list(d.ids())); got_nums = _outcome(lambda: [int(x) for x in d.numbers()])
+            if got_ids != [vocab[i] for i in keep] or got_nums != keep: failed.append(f"{attr}: drop_null() on {label} keeps entities {got_ids}, want {[vocab[i] for i in keep]}")
+            else:
+                dv = _outcome(lambda: d.arrow().to_pylist())
+                if kind == "sparse" and isinstance(dv, list): dv = [None if r is None else sorted((x["index"], x["value"]) for x in r) for r in dv]
+                if dv != [want[i] for i in keep]: failed.append(f"{attr}: values after drop_null() on {label} differ")
         if kind in ("scalar", "list"):
             p = _outcome(lambda: a.pandas())
             if isinstance(p, dict): failed.append(f"{attr}: pandas() raises {p['error']}")
